@@ -177,3 +177,7 @@ package store
 //@ func Account.Storage(self)
 //@   ensures result != nil && int(result) == self.storage
 //@   modifies nothing
+
+// reading an account store view (C14 rebuild)
+//@ func Account.Identifier(self)
+//@   modifies nothing
